@@ -11,8 +11,10 @@ META = {
     'explanation': 'E-ABS interval analysis of ExtendedZoneProcessor::normalizeDateTuple for the range of minutes that the callers '
                    'can hand it (derived from the shipped tables: largest AT/UNTIL time, range of standard offsets and DST shifts): '
                    'the minutes component must come out inside [0, 1439], otherwise the lexicographic comparison of '
-                   '(year, month, day, minutes) in findTransitionForDateTime is not the order of time; E-GNF/E-PATH shape rules '
-                   'for getOffsetDateTime and the two look-up loops.',
+                   '(year, month, day, minutes) in findTransitionForDateTime is not the order of time; E-GNF path summaries '
+                   'of getOffsetDateTime (provenance of the instant and the offset of every returned value); the two look-ups '
+                   'interpreted (E-SEQ, typed, DateTuple operators and LocalDateTime accessors through their bodies) on pools of '
+                   '0..4 transitions with queries before, at, one unit around and between every start.',
     'decided': 'date tuples are canonical (0 <= minutes < 1440) after normalisation for every input the tables can produce; the '
                'extended result is OffsetDateTime::forEpochSeconds(e, offset of findTransition(e)) for the same e on every '
                'non-error path; the basic result is either the equilibrium value or rebuilt from (epochSeconds, offset) of the same '
